@@ -45,8 +45,15 @@ impl Strat for DefaultStrategy {
 }
 impl Strat for FillFastSlots {
     const NAME: &'static str = "fallback-only";
+    // `AsRaw` is implemented for guards of the default strategy only; here the guard is passed as
+    // a reference to what it denotes and released afterwards. The release happens while the
+    // result is an ordinary local: if the destructor of the guard's value panics, the result is
+    // dropped by the unwinding (as a by-value parameter dropped after the return value was moved
+    // out it would be forgotten - by the harness, not by the crate).
     fn cas_guard(c: &Cont<Self>, cur: Guard<V, Self>, new: V) -> Guard<V, Self> {
-        c.compare_and_swap(&*cur, new)
+        let r = c.compare_and_swap(&*cur, new);
+        drop(cur);
+        r
     }
     fn cas_guard_ref(c: &Cont<Self>, cur: &Guard<V, Self>, new: V) -> Guard<V, Self> {
         c.compare_and_swap(&**cur, new)
@@ -269,23 +276,23 @@ impl<S: Strat> Shared<S> {
         .flatten()
     }
 
-    /// an injected destructor panic unwound out of a write operation on c that had (idx) / may
-    /// have (None) exchanged the pointer: the value it removed may have leaked one reference
-    fn dtor_panic_in_write(&self, c: usize, idx: Option<usize>, lo: usize) {
-        // the removed value (held as a raw pointer during the debt walk) and whatever an internal
-        // or nested load was being handed over by a helper
-        let lo = match idx {
-            Some(i) if i > 0 => lo.min(i - 1),
-            _ => lo,
-        };
-        let tags = self.tags_from(c, lo);
-        self.f5.lock().unwrap().extend(tags);
+    /// An injected destructor panic unwound out of a write operation on c. Finding F5 (open): the
+    /// only place left where that loses a reference is the debt walk after a *successful*
+    /// exchange (`wait_for_readers` -> `pay_all` -> `help` drops the replacement it could not
+    /// hand over): the value the exchange removed is then held as a raw pointer and leaks exactly
+    /// one reference. An operation that did not write (idx = None) has no such window, and neither
+    /// has any other value.
+    fn dtor_panic_in_write(&self, c: usize, idx: Option<usize>, _lo: usize) {
+        if let Some(i) = idx {
+            if i > 0 {
+                self.f5.lock().unwrap().extend(self.tag_at(c, i - 1));
+            }
+        }
         self.hs.lock().unwrap().panics_in_writer += 1;
     }
-    /// ... out of a load on c: the value handed over by a helper may have leaked
-    fn dtor_panic_in_load(&self, c: usize, lo: usize) {
-        let tags = self.tags_from(c, lo);
-        self.f5.lock().unwrap().extend(tags);
+    /// ... out of a load on c: nothing may leak (the fallback's release of the unused candidate
+    /// was the second F5 site; it is fixed and therefore not excused any more)
+    fn dtor_panic_in_load(&self, _c: usize, _lo: usize) {
         self.hs.lock().unwrap().panics_in_load += 1;
     }
 
